@@ -10,6 +10,9 @@ Extracted from the AST of glom/*.py (current source):
     a mutating method on such an object, also through a local alias);
   * every parameter default that is a mutable object (`x={}`, `x=[]`, `x=dict()` …): such an
     object is created once and shared by all calls;
+  * methods (other than __init__) that write `self`, for classes whose instances are shared by calls:
+    module-level singletons and spec classes (anything with `glomit`); `arg_val` builds a fresh
+    `_ArgValuator` per call; `bbrepr` is `recursive_repr()(…)` (reprlib's guard is keyed by thread);
   * the dict literal `glom()` passes to `_DEFAULT_SCOPE.new_child` (key → how the value is
     built) and the one `_glom` passes to `scope.new_child`;
   * which attributes of `self` the registry methods on the evaluation path write.
@@ -189,6 +192,31 @@ def mutable_defaults(tree):
     return out
 
 
+def shared_object_writes(tree, modname):
+    """(Class.method, attributes) for every method other than __init__/__setstate__ that writes `self`,
+    of classes whose instances are shared between calls: classes instantiated by a module-level
+    statement (singletons such as the registry, the repr helper, T) and spec classes (anything with a
+    `glomit` method: spec objects are written once and evaluated by many calls)"""
+    classes = {n.name: n for n in tree.body if isinstance(n, ast.ClassDef)}
+    inst = set()
+    for n in tree.body:
+        if isinstance(n, (ast.Assign, ast.Expr, ast.AugAssign, ast.AnnAssign)):
+            for c in ast.walk(n):
+                if isinstance(c, ast.Call) and isinstance(c.func, ast.Name) and c.func.id in classes:
+                    inst.add(c.func.id)
+    out = []
+    for cn, c in classes.items():
+        has_glomit = any(isinstance(f, ast.FunctionDef) and f.name == 'glomit' for f in c.body)
+        if not (has_glomit or cn in inst):
+            continue
+        for f in c.body:
+            if isinstance(f, ast.FunctionDef) and f.name not in ('__init__', '__setstate__'):
+                w = self_attr_writes(f)
+                if w:
+                    out.append(((modname + ':' if modname != 'core' else '') + cn + '.' + f.name, ','.join(w)))
+    return out
+
+
 def value_kind(v):
     if isinstance(v, ast.List) and not v.elts:
         return '[]'
@@ -329,6 +357,7 @@ def extract(ctx):
     # ---- shared writes in all modules
     writes = []
     mdefaults = []
+    obj_writes = []
     for m in MODULES:
         try:
             tree = core if m == 'core' else ctx['src_tree'](m + '.py')
@@ -339,6 +368,7 @@ def extract(ctx):
             writes.append((q if m == 'core' else m + ':' + q, w))
         for q, w in mutable_defaults(tree):
             mdefaults.append((q if m == 'core' else m + ':' + q, w))
+        obj_writes += shared_object_writes(tree, m)
     # ---- scope literals
     g = find_def(core, 'glom')
     root, glom_scope = new_child_literal(g) if g is not None else (None, None)
@@ -359,12 +389,28 @@ def extract(ctx):
             continue
         for a in self_attr_writes(fn):
             reg_writes.append((m, a))
+    # ---- arg_val builds its _ArgValuator per call; bbrepr's recursion guard is reprlib's (per thread)
+    av = find_def(core, 'arg_val')
+    arg_val_fresh = False
+    if av is None:
+        P.add('arg_val not found')
+    else:
+        arg_val_fresh = any(ast.unparse(st) == 'scope[MIN_MODE] = _ArgValuator().mode' for st in av.body)
+    bbrepr_def = ''
+    for n in core.body:
+        if isinstance(n, ast.Assign) and len(n.targets) == 1 and ast.unparse(n.targets[0]) == 'bbrepr':
+            bbrepr_def = ast.unparse(n.value)
+    if not bbrepr_def:
+        P.add('module-level `bbrepr = ...` not found')
     facts = [
         ('c20MaxCache', 'Nat', max_cache),
         ('c20FromTextShape', 'List String', ft_shape),
         ('c20GetHandlerShape', 'List String', gh_shape),
         ('c20SharedWrites', 'List (String × String)', writes),
         ('c20MutableDefaults', 'List (String × String)', mdefaults),
+        ('c20SharedObjectWrites', 'List (String × String)', obj_writes),
+        ('c20ArgValFresh', 'Bool', bool(arg_val_fresh)),
+        ('c20BbreprDef', 'String', bbrepr_def),
         ('c20GlomScope', 'List (String × String)', glom_scope),
         ('c20GlomScopeRoot', 'String', root or ''),
         ('c20ChildScope', 'List (String × String)', child_scope),
